@@ -39,6 +39,10 @@ func newNode(d time.Time) *Node {
 }
 
 func (r *Report) Insert(k amounts.Key, v decimal.Decimal) {
+	if k.Other == nil {
+		// the account is hidden by a mapping rule of level 0
+		return
+	}
 	n := dict.GetDefault(r.nodes, k.Date, func() *Node { return newNode(k.Date) })
 	n.Amounts.Add(k, v)
 }
